@@ -21,6 +21,7 @@ import Driver.VP8ModeBytes
 import Driver.BoolCoderFast
 import Driver.VP8LWindow
 import Driver.VP8LWindow2
+import Driver.VP8LWindow3
 import Driver.VP8Dec
 import Driver.C01Full
 /-
@@ -51,6 +52,7 @@ def dispatch (line : String) : String :=
            <|> Driver.BoolCoderFast.handle op args
            <|> Driver.VP8LWindow.handle op args
            <|> Driver.VP8LWindow2.handle op args
+           <|> Driver.VP8LWindow3.handle op args
            <|> Driver.VP8Dec.handle op args
            <|> Driver.C01Full.handle op args) with
     | some r => r
